@@ -57,6 +57,9 @@ REPS = [
     dict(rep="matrices", labels="frozendict", alabels="int", explicit_list=False, dist="dict"),
     dict(rep="quick", labels="str", alabels="tuple", explicit_list=False, dist="uniform"),
     dict(rep="subclass", labels="int", alabels="int", explicit_list=False, dist="dict_zeros"),
+    # distinct state labels with equal hashes (CPython: hash(-1) == hash(-2)): anything keyed by hash(s) confuses them
+    dict(rep="quick", labels="negint", alabels="int", explicit_list=False, dist="dict"),
+    dict(rep="subclass", labels="negtuple", alabels="str", explicit_list=False, dist="dict_zeros"),
 ]
 DIFFS = [(1, 100000), (1, 100000), (1, 1000), (1, 100), (1, 20), (1, 10 ** 9), (1, 10 ** 9), (1, 10 ** 7)]
 
@@ -73,6 +76,7 @@ SITE = {
     "empirical-bellman-residual": "RMAX._value_iteration",
     "policy-not-greedy": "RMAX._create_policy",
     "unknown-pair-not-exactly-optimistic": "RMAX.train_on.q_values",
+    "episode-rewards-not-of-this-run": "EpisodeRewardEventListener.results",
 }
 
 
@@ -108,13 +112,14 @@ def oracle_feasible(m, thr, rmax):
 
 EPSD = 2 ** 20          # near-tie family: real reward = R - RE / EPSD (about 1e-6 below an integer)
 REUSE = {"learner-reused-on-other-mdp": "other-shape", "learner-reused-on-same-mdp": "same-mdp",
-         "learner-reused-on-same-shape-mdp": "same-shape"}
+         "learner-reused-on-same-shape-mdp": "same-shape", "learner-reused-on-other-discount-mdp": "other-discount"}
 
 
 def make_case(rng, *, shape=None, tiny=False, neartie=False):
     """One (instance, representation, configuration)."""
     while True:
-        GN, GD = rng.choice([(1, 2), (3, 4), (9, 10), (9, 10), (4, 5), (7, 10), (19, 20)])
+        # discounts below 1/2 too: a stopping rule scaled by (1-gamma)/gamma is looser than configured there
+        GN, GD = rng.choice([(1, 2), (3, 4), (9, 10), (9, 10), (4, 5), (7, 10), (19, 20), (1, 10), (1, 4), (1, 10)])
         PD = rng.choice([2, 4]) if not neartie else 2
         n_na = rng.choice([1, 2, 2, 3, 3, 3, 4, 5]) if not tiny else rng.choice([1, 2])
         n_abs = rng.choice([1, 1, 2])
@@ -164,8 +169,10 @@ def make_case(rng, *, shape=None, tiny=False, neartie=False):
                "seed": rng.choice([0, 1, 2, 3, 7, 11, 42, 12345, 2 ** 31 - 1]) if rng.random() < 0.5 else rng.randrange(10 ** 6),
                "diff": list(rng.choice(DIFFS)),
                "reuse": REUSE.get(shape, 0)}
-        if cfg["reuse"] in ("same-mdp", "same-shape"):
+        if cfg["reuse"] in ("same-mdp", "same-shape", "other-discount"):
             cfg["warm_episodes"] = rng.choice([2, 5, 10, 20]) * cfg["thr"]
+        if cfg["reuse"] == "other-discount":
+            cfg["warm_gamma"] = list(rng.choice([g for g in [(1, 2), (3, 4), (9, 10), (1, 4)] if g != (GN, GD)]))
         case = {"m": m, "rep": rep, "cfg": cfg, "shape": shape or ("near-tie-rewards" if neartie else "")}
         if RE is not None:
             case["RE"] = RE
@@ -180,6 +187,8 @@ def make_cases(rng, n, n_special):
         for _ in range(5):
             cases.append(make_case(rng, shape="learner-reused-on-same-mdp"))
             cases.append(make_case(rng, shape="learner-reused-on-same-shape-mdp"))
+        for _ in range(3):
+            cases.append(make_case(rng, shape="learner-reused-on-other-discount-mdp"))
         for _ in range(10):
             cases.append(make_case(rng, neartie=True))
     for _ in range(2 * n_special):          # few: every planning call takes thousands of sweeps
@@ -380,11 +389,15 @@ def run_real(case):
             learner.episodes = 2 * cfg["thr"]      # two actions: some pair reaches the threshold, value iteration runs
             learner.train_on(_warmup_mdp(rmax_f, b.mdp.discount_rate))
             learner.episodes = cfg["episodes"]
-        elif reuse in ("same-mdp", "same-shape"):
+        elif reuse in ("same-mdp", "same-shape", "other-discount"):
             # the same learner object is first trained on the same MDP / on another MDP of the same shape;
             # both runs are recorded and judged (the first one's Result is only queried after the second run)
             if reuse == "same-mdp":
                 bw, mw = b, m
+            elif reuse == "other-discount":
+                # the same MDP with another discount rate: nothing computed from the first run's discount may survive
+                mw = dict(mr, GN=cfg["warm_gamma"][0], GD=cfg["warm_gamma"][1])
+                bw = build.build_mdp(mw, rng=random.Random(digest({"m": m, "rep": rep})), **rep)
             else:
                 mw = same_shape_instance(mr, random.Random(digest({"w": m})))
                 bw = build.build_mdp(mw, rng=random.Random(digest({"m": m, "rep": rep})), **rep)
@@ -398,6 +411,15 @@ def run_real(case):
             first = (res1, bw, mw)
         res = learner.train_on(b.mdp)
         out.update(collect(res, b, m))
+        if not reuse and not case.get("RE") and case.get("shape") != "slow-mixing":
+            # the same configuration with the library's default listener: the listener does not touch the random
+            # generator, so this run experiences the same history; what it reports is judged against the recorded one
+            twin = RMAX(episodes=cfg["episodes"], rmax=rmax_f, num_transition_samples=cfg["thr"],
+                        bellman_convergence_diff=diff, seed=cfg["seed"]).train_on(b.mdp)
+            er = getattr(twin.event_listener_results, "episode_rewards", None)
+            if er is not None:
+                out["er"] = [int(round(float(x) * 1024)) if float(x) * 1024 == round(float(x) * 1024) else 10 ** 8
+                             for x in list(er)]
         if first is not None:
             # the Result of the earlier call is only looked at now, after the learner has been trained again:
             # it must still be self-consistent (its policy greedy for its own q_values)
@@ -504,7 +526,8 @@ def to_trace(case, out, tag):
         ev.append({"k": "cut"})
         raw.append(None)
     else:
-        ev.append({"k": "final", "q": rows, "pol": pol, "rk": rk})
+        ev.append({"k": "final", "q": rows, "pol": pol, "rk": rk,
+                   "ern": 1 if "er" in out else 0, "er": out.get("er", [])})
         raw.append(dict(out["q"]))
     vmax = F(rmax) / (1 - g)
     rec = {k: m[k] for k in ("N", "K", "PD", "GN", "GD", "ID", "abs", "avail", "P", "R", "p0")}
@@ -681,17 +704,22 @@ def py_validate(t):
     rsum = [[0] * K for _ in range(N)]
     cur = 0
     fail = set()
+    epr, epcur = [], 0
     reach = py_reach(t)
     for pos, e in enumerate(t["ev"], start=1):
         if e["k"] == "end":
             cur = 0
+            epr.append(epcur)
+            epcur = 0
         elif e["k"] == "step":
             s, a, ns = e["s"], e["a"], e["ns"]
             ok = 1 <= s <= N and 1 <= a <= K and 1 <= ns <= N
             if not ok:
                 fail.add(("step-outside-the-mdp", pos))
                 cur = 0
+                epcur += e["r2"]
                 continue
+            epcur += 1024 * t["R"][s - 1][a - 1][ns - 1]
             s0, a0, n0 = s - 1, a - 1, ns - 1
             if t["P"][s0][a0][n0] == 0:
                 fail.add(("step-not-a-transition", pos))
@@ -710,6 +738,8 @@ def py_validate(t):
             cur = ns
         elif e["k"] == "final":
             o, pol, rk = e["q"], e["pol"], e["rk"]
+            if e["ern"] == 1 and e["er"] != epr:
+                fail.add(("episode-rewards-not-of-this-run", pos))
             for x in py_judge_q(t, cnt, tcnt, rsum, o, reach):
                 fail.add((x, pos))
             for s in range(N):
@@ -759,6 +789,9 @@ def judge_cases(ctx, cases, *, mutate=None, confirm=True):
             ctx.violation(signature(c, "raises-" + out["error_type"]),
                           f"RMAX.train_on raised {out['error']}", {"case": strip(c), "clause": "error"})
             continue
+        if "er" in out:
+            ctx.evaluations += 1
+            ctx.count("default_listener_twin_runs")
         todo = [(c, out, c)]
         if out.get("first"):
             # the earlier Result of a reused learner, queried after the learner was trained again
@@ -982,7 +1015,7 @@ def selftest(ctx):
     def mutate(i, t):
         steps = [j for j, e in enumerate(t["ev"]) if e["k"] == "step"]
         fin = t["ev"][-1]
-        kind = ["unknown", "transition", "drop", "known", "policy", "reward", "ulp", "exactres"][i % 8] if i < 48 else None
+        kind = ["unknown", "transition", "drop", "known", "policy", "reward", "ulp", "exactres", "eprew"][i % 9] if i < 54 else None
         N, K = t["N"], t["K"]
         if kind == "unknown":
             for s in range(N):
@@ -990,6 +1023,10 @@ def selftest(ctx):
                     fin["q"][s][0] -= t["SC"] // 2         # an untried pair reported half a unit below Vmax
                     plan[t["tag"]] = "unknown-pair-not-optimistic"
                     return
+        if kind == "eprew" and fin.get("ern") == 1:
+            fin["er"] = [1024] + list(fin["er"])            # an episode of some other run in front of this run's
+            plan[t["tag"]] = "episode-rewards-not-of-this-run"
+            return
         if kind == "ulp":
             for s in range(N):
                 if len(fin["xo"][s]) == K and t["abs"][s] == 1:
